@@ -422,8 +422,11 @@ func (mp *mergeProcessor) processBlock(
 		// A field block can be linked from more than one composite: two replicas that write the same
 		// value on top of the same field head produce the same field block. Processing it a second
 		// time would make it a head again although its descendants have already been merged.
+		//
+		// Likewise a document composite: in a branchable collection it is linked from a collection-level
+		// block and is reached again when that block is merged after the document itself.
 		alreadyMerged := false
-		if dagBlock.Delta.IsField() {
+		if dagBlock.Delta.IsField() || dagBlock.Delta.IsComposite() {
 			alreadyMerged, err = mp.isMerged(ctx, crdt.HeadstorePrefix(), blockLink, dagBlock.Delta.GetPriority())
 			if err != nil {
 				return err
